@@ -1,5 +1,5 @@
 #!/venv/bin/python
-"""Sensitivity self-test: apply each mutant of mutants/mutants.json ({"name": "Cxx-...", "file":
+"""Sensitivity self-test: apply each mutant of mutants/*.json ({"name": "Cxx-...", "file":
 "src/deepali/...", "old": "...", "new": "..."}; `old` must occur exactly once) to a scratch worktree
 of /repo (under /tmp, removed afterwards), run the quick check of that property against the copy
 (PYTHONPATH override of the editable install) and expect exit code 1.
@@ -63,7 +63,9 @@ def main():
     args, extra = ap.parse_known_args()
     import json
 
-    patches = json.load(open(os.path.join(ROOT, "mutants", "mutants.json")))
+    patches = []
+    for f in sorted(glob.glob(os.path.join(ROOT, "mutants", "*.json"))):
+        patches.extend(json.load(open(f)))
     if args.props:
         patches = [p for p in patches if p["name"].split("-")[0] in [x.upper() for x in args.props]]
     if args.match:
